@@ -1,6 +1,7 @@
-(* C19 — the reader's resource limits are enforced and rejections are reported with the
-   matching reason.  (Reader history cache only: the sample-rejected status counter and the
-   writer-side limits are not part of this model, see props/C19.py.)
+(* C19 — resource limits are enforced and rejections are reported with the matching reason.
+   Part 1: the reader history cache (ReaderModel.v).  Part 2: the writer,
+   DataWriterEntity::write_w_timestamp with the KEEP_LAST step of its caller (WriterModel.v).
+   Not modelled: the sample-rejected status counter (see props/C19.py).
    Vocabulary (Cache/LimitsDefs.v, definitions only):
      within q l       l respects max_samples, max_instances and max_samples_per_instance of q
      limits_nonneg q  every limit that is set is >= 0
@@ -9,7 +10,7 @@
      ms_hit/mi_hit/mspi_hit  the three limit tests of the code (their meaning: C19_*_hit_means)
      accepted h tr    payloads of the adds to instance h that returned Added *)
 From DustDDS Require Import Base.Machine Cache.ReaderModel Cache.ReaderCorr Cache.LimitsDefs
-  Cache.C18Proofs Cache.C19Proofs.
+  Cache.C18Proofs Cache.C19Proofs Cache.WriterModel Cache.WriterProofs.
 Open Scope Z_scope.
 
 (* (a) for ALL QoS values — any history kind and depth, any order/ownership/filter; the
@@ -113,6 +114,122 @@ Example C19_nonvacuous :
   accepted 1 (run_trace (init_reader ex_q) ex_ops) = [101; 102].
 Proof. vm_compute. repeat split; intros; try reflexivity; discriminate. Qed.
 
+(* ======================================================================================
+   Part 2 — the writer.  Vocabulary (Cache/WriterModel.v, definitions only):
+     w_write w h data ts now   DataWriterEntity::write_w_timestamp
+     w_pre w h                 the caller's KEEP_LAST step (pop the oldest sample of h when it holds depth)
+     WApp h data ts now        DataWriter::write = w_pre then w_write;  w_run q ops  the writer after ops
+     w_register / w_mspi_hit / w_ms_hit   the three tests of write_w_timestamp, in its order
+     total l                   samples recorded over all instances;  slen x  samples of instance x
+   ====================================================================================== *)
+
+(* for ALL QoS values (set limits >= 0, KEEP_LAST depth >= 1; depth <= max_samples_per_instance
+   and max_samples >= max_samples_per_instance are NOT needed) and EVERY history of
+   DataWriter::write calls: samples <= max_samples, registered instances <= max_instances,
+   samples of each instance <= max_samples_per_instance *)
+Theorem C19_writer_limits_invariant :
+  forall (q : wqos) (ops : list wop),
+    wlim_nonneg (wq_ms q) -> wlim_nonneg (wq_mi q) -> wlim_nonneg (wq_mspi q) ->
+    (forall d, wq_depth q = Some d -> 1 <= d) -> forallb app_op ops = true ->
+    wlim_ok (wq_ms q) (total (w_insts (w_run q ops))) = true /\
+    wlim_ok (wq_mi q) (Z.of_nat (length (w_insts (w_run q ops)))) = true /\
+    forall x, In x (w_insts (w_run q ops)) -> wlim_ok (wq_mspi q) (slen x) = true.
+Proof. exact w_limits_invariant. Qed.
+
+(* write_w_timestamp alone does NOT keep max_samples_per_instance with KEEP_LAST: it relies on
+   the step its caller performs first *)
+Theorem C19_writer_entity_alone_exceeds :
+  exists q ops, wq_mspi q = Some 2 /\ wq_depth q = Some 2 /\ map slen (w_insts (w_run q ops)) = [3].
+Proof. exact w_entity_alone_exceeds_refuted. Qed.
+
+(* in ANY state: OutOfResources exactly when a limit is in the way, tests in the code's order *)
+Theorem C19_writer_refused_iff :
+  forall w h data ts now,
+    snd (w_write w h data ts now) = WOutOfResources <->
+    w_register w h = None \/
+    exists insts1, w_register w h = Some insts1 /\
+                   (w_mspi_hit (w_qos w) insts1 h = true \/ w_ms_hit (w_qos w) insts1 = true).
+Proof. exact w_refused_iff. Qed.
+Theorem C19_writer_instances_test_means :
+  forall w h, w_register w h = None <->
+    find_wi h (w_insts w) = None /\ exists v, wq_mi (w_qos w) = Some v /\ v <= Z.of_nat (length (w_insts w)).
+Proof. exact w_register_none_iff. Qed.
+Theorem C19_writer_samples_per_instance_test_means :
+  forall q insts h, w_mspi_hit q insts h = true <->
+    exists m s, wq_mspi q = Some m /\ find_wi h insts = Some s /\ m <= slen s /\
+                (forall d, wq_depth q = Some d -> m < d).
+Proof. exact w_mspi_hit_iff. Qed.
+Theorem C19_writer_samples_test_means :
+  forall q insts, w_ms_hit q insts = true <-> exists m, wq_ms q = Some m /\ m <= total insts.
+Proof. exact w_ms_hit_iff. Qed.
+Theorem C19_writer_no_panic :
+  forall w h data ts now, snd (w_write w h data ts now) <> WPanic.
+Proof. exact w_write_no_panic. Qed.
+
+(* a refused write stores no sample: sequence number, transport writer and every instance's
+   samples are untouched; the instance list is unchanged or has gained h with no samples *)
+Theorem C19_writer_refused_stores_no_sample :
+  forall w h data ts now, snd (w_write w h data ts now) = WOutOfResources ->
+    let w' := fst (w_write w h data ts now) in
+    w_seq w' = w_seq w /\ w_changes w' = w_changes w /\ w_qos w' = w_qos w /\
+    (w_insts w' = w_insts w \/
+     (find_wi h (w_insts w) = None /\ w_insts w' = w_insts w ++ [mkWI h None []])).
+Proof. exact w_refused_stores_no_sample. Qed.
+(* RECORDED DEVIATION C19-failed-write-registers-instance: "stores nothing" fails for the
+   instance registry — the witness: max_samples 1, max_instances 2; the refused write of
+   instance 2 leaves it registered and instance 3 is then refused for max_instances although
+   it could have been registered before *)
+Theorem C19_writer_refused_registers_instance :
+  exists q ops h data ts now,
+    let w := w_run q ops in
+    snd (w_write w h data ts now) = WOutOfResources /\
+    w_insts (fst (w_write w h data ts now)) <> w_insts w /\
+    snd (w_write (fst (w_write w h data ts now)) 3 0 0 0) = WOutOfResources /\
+    snd (w_write w 3 0 0 0) = WOutOfResources /\ w_register w 3 <> None.
+Proof. exact w_refused_registers_refuted. Qed.
+(* outside that class (the instance is already registered) a refused write changes nothing at all *)
+Theorem C19_writer_refused_registered_unchanged :
+  forall w h data ts now s, find_wi h (w_insts w) = Some s ->
+    snd (w_write w h data ts now) = WOutOfResources -> fst (w_write w h data ts now) = w.
+Proof. exact w_refused_registered_unchanged. Qed.
+
+(* an accepted write records exactly one sample with the next sequence number *)
+Theorem C19_writer_accepted_records_one :
+  forall w h data ts now, snd (w_write w h data ts now) = WOk ->
+    let w' := fst (w_write w h data ts now) in
+    w_seq w' = w_seq w + 1 /\
+    (exists s', find_wi h (w_insts w') = Some s' /\
+       wi_samples s' = match find_wi h (w_insts w) with Some s => wi_samples s | None => [] end ++ [w_seq w + 1]) /\
+    total (w_insts w') = total (w_insts w) + 1 /\
+    (w_changes w' = w_changes w \/ w_changes w' = w_changes w ++ [mkCh (w_seq w + 1) h data ts]).
+Proof. exact w_accepted_records_one. Qed.
+
+(* KEEP_LAST: at most depth samples per instance, and a replacement never loses the old sample
+   to a refused write: whenever the caller's step removes the oldest sample, the write succeeds *)
+Theorem C19_writer_keep_last_bound :
+  forall q ops d x,
+    wlim_nonneg (wq_ms q) -> wlim_nonneg (wq_mi q) -> wlim_nonneg (wq_mspi q) ->
+    wq_depth q = Some d -> 1 <= d -> forallb app_op ops = true ->
+    In x (w_insts (w_run q ops)) -> slen x <= d.
+Proof. exact w_keep_last_bound. Qed.
+Theorem C19_writer_replacement_not_refused :
+  forall q ops h data ts now d s,
+    wlim_nonneg (wq_ms q) -> wlim_nonneg (wq_mi q) -> wlim_nonneg (wq_mspi q) ->
+    wq_depth q = Some d -> 1 <= d -> forallb app_op ops = true ->
+    find_wi h (w_insts (w_run q ops)) = Some s -> slen s = d ->
+    snd (w_step (w_run q ops) (WApp h data ts now)) = WOk.
+Proof. exact w_replacement_not_refused. Qed.
+
+Example C19_writer_nonvacuous :
+  let q := mkWQ (Some 2) (Some 3) (Some 2) (Some 2) None in
+  let ops := [WApp 1 101 10 10; WApp 1 102 20 20; WApp 1 103 30 30; WApp 2 104 40 40; WApp 2 105 50 50;
+              WApp 3 106 60 60; WApp 1 107 70 70] in
+  forallb app_op ops = true /\
+  snd (w_run_obs (init_writer q) ops) = [WOk; WOk; WOk; WOk; WOutOfResources; WOutOfResources; WOk] /\
+  map wi_samples (w_insts (w_run q ops)) = [[3; 5]; [4]] /\
+  map c_data (w_changes (w_run q ops)) = [103; 104; 107].
+Proof. vm_compute. repeat split; reflexivity. Qed.
+
 Print Assumptions C19_limits_invariant.
 Print Assumptions C19_distinct_insts_spec.
 Print Assumptions C19_not_accepted_not_stored.
@@ -125,3 +242,16 @@ Print Assumptions C19_accepted_iff.
 Print Assumptions C19_samples_hit_means.
 Print Assumptions C19_instances_hit_means.
 Print Assumptions C19_samples_per_instance_hit_means.
+Print Assumptions C19_writer_limits_invariant.
+Print Assumptions C19_writer_entity_alone_exceeds.
+Print Assumptions C19_writer_refused_iff.
+Print Assumptions C19_writer_instances_test_means.
+Print Assumptions C19_writer_samples_per_instance_test_means.
+Print Assumptions C19_writer_samples_test_means.
+Print Assumptions C19_writer_no_panic.
+Print Assumptions C19_writer_refused_stores_no_sample.
+Print Assumptions C19_writer_refused_registers_instance.
+Print Assumptions C19_writer_refused_registered_unchanged.
+Print Assumptions C19_writer_accepted_records_one.
+Print Assumptions C19_writer_keep_last_bound.
+Print Assumptions C19_writer_replacement_not_refused.
